@@ -1044,7 +1044,10 @@ def _search(ctx, obj, reqs, pending):
                         ('ok', {'number': int(val.segment_number), 'label': str(val.segment_label)}) if st == 'ok'
                         else ('err', _err_kind(val)), 'exact'))
     # a number no item carries is refused (IndexError); the background item of a label map is an item and is found
+    present_numbers = {int(i.SegmentNumber) for i in seg.SegmentSequence}
     absent = max(d['nums']) + 1 + r.randrange(3)
+    while absent in present_numbers:       # (the background item of a label map may carry any unused number)
+        absent += 1
     for number in [absent] + ([int(seg.PixelPaddingValue)] if 'PixelPaddingValue' in seg and
                               any(int(i.SegmentNumber) == int(seg.PixelPaddingValue) for i in seg.SegmentSequence) else []):
         st, val = _fetch(seg.get_segment_description, number)
